@@ -73,7 +73,7 @@ func c14Worker(c *core.Collector, x *Ctx) {
 			return hookFrameV(v19, id, serial, frag, sum, no, body)
 		}
 		hb := func(serial uint16) []byte { return hookFrameV(v19, 0x0002, serial, false, 0, 0, nil) }
-		for variant := 0; variant < 7; variant++ {
+		for variant := 0; variant < 8; variant++ {
 			bodies := c05Bodies(r, j.N, variant&1)
 			b := &builder{}
 			var missing []int
@@ -88,7 +88,7 @@ func c14Worker(c *core.Collector, x *Ctx) {
 					feed(b, hookFrame(false, id, uint16(1000+k), true, uint16(j.N), uint16(k), bodies[k-1]))
 				}
 			}
-			if variant == 6 {
+			if variant == 6 || variant == 7 {
 				// the terminal abandons this incomplete message and starts a NEW one with the same ID (other serials, other
 				// bodies, the same packets missing): the re-request names the NEW first packet and the new body is delivered
 				age(b, 1200)
@@ -104,10 +104,15 @@ func c14Worker(c *core.Collector, x *Ctx) {
 				feed(b, hb(1))
 				age(b, 1000)
 				feed(b, hb(2)) // exactly one re-request, naming nfirst
+				if variant == 7 {
+					// the restarted transfer is slow: its missing packets come 50 s later — 55.5 s after ITS packet 1 (in time),
+					// but more than 60 s after the packet 1 of the attempt it replaced
+					age(b, 50000)
+				}
 				for _, k := range missing {
 					feed(b, hookFrame(false, id, uint16(6000+k), true, uint16(j.N), uint16(k), nb[k-1]))
 				}
-				run("subset variant=6 (abandoned and restarted)", b)
+				run(fmt.Sprintf("subset variant=%d (abandoned and restarted)", variant), b)
 				continue
 			}
 			if variant == 4 {
